@@ -5,13 +5,15 @@
     (search for the record start, version line, header parser, header validation, parseBlock,
     length/digest verification, end-of-record marker) and of the builder, for every input and
     every option setting with no axis at warn - uniform ignore, uniform fail and every mix of the
-    two ([C08_no_axis_at_warn_*]).  Sentence 3 ("fail errs exactly when warn finds") and warn's
-    "never errors" are proved for header validation and for length/digest verification; for the
-    header parser, parseBlock and the marker check, and for the axis-by-axis monotonicity, the
-    statement is evaluated on the implementation (uniform levels and all 81 axis settings for
-    every generated input) and the models of those stages are tied by the correspondence run. *)
+    two ([C08_no_axis_at_warn_*]).  Sentence 3 ("fail returns an error exactly when warn produces
+    at least one finding or an error") is proved for the whole parser on plain streams and for the
+    whole builder ([C08_parser_fail_errs_exactly_when_warn_finds_or_errs],
+    [C08_builder_...]): the run under fail and the run under warn proceed in lock step until the
+    first finding, stage by stage (Proofs/SyncProofs.v, Proofs/SyncPipeProofs.v).  Not mechanised:
+    the last sentence (axis-by-axis monotonicity under mixed settings) and the gzip container;
+    they are evaluated on the implementation (all 81 axis settings for every generated input). *)
 Require Import Model.Bytes Model.FieldDef Gen.FieldTable Model.Fields Model.Policy Model.Validate Model.Digest Model.Record.
-Require Import Model.Stream Proofs.ValidateProofs Proofs.RecordProofs Proofs.PolicyProofs.
+Require Import Model.Stream Proofs.NormalizeProofs Proofs.ValidateProofs Proofs.RecordProofs Proofs.PolicyProofs Proofs.SyncPipeProofs.
 Local Open Scope N_scope.
 
 Section C08.
@@ -91,3 +93,21 @@ Definition uniform (p : policy) (o : opts) : Prop :=
 Theorem C08_uniform_ignore_and_uniform_fail_are_covered :
   forall o, uniform Ignore o \/ uniform Fail o -> no_warn o.
 Proof. intros o [(H1 & H2 & H3 & H4)|(H1 & H2 & H3 & H4)]; unfold no_warn; rewrite H1, H2, H3, H4; repeat split; discriminate. Qed.
+
+(** sentence 3, uniform levels, the whole parser and the whole builder *)
+Theorem C08_parser_fail_errs_exactly_when_warn_finds_or_errs :
+  forall uni_lower uni_upper time_ok ip_ok uri_ok wid_ok mime_dec H b32 b64 http_req_ok http_resp_ok o s,
+    let run p := snd (unmarshal_plain field_table required_fields uni_lower uni_upper time_ok ip_ok uri_ok wid_ok
+                                      mime_dec H b32 b64 http_req_ok http_resp_ok (uni o p) s) in
+    uerr (run Fail) = true <-> (ufindings (run Warn) <> [] \/ uerr (run Warn) = true).
+Proof. intros. apply unmarshal_fail_errs_iff_warn_finds_or_errs. exact gen_table_ok. Qed.
+Print Assumptions C08_parser_fail_errs_exactly_when_warn_finds_or_errs.
+
+Theorem C08_builder_fail_errs_exactly_when_warn_finds_or_errs :
+  forall uni_lower uni_upper time_ok ip_ok uri_ok wid_ok mime_dec H b32 b64 http_req_ok http_resp_ok o vid rt hs content new_id,
+    canonical field_table uni_lower hs ->
+    let run p := fst (build field_table required_fields uni_lower uni_upper time_ok ip_ok uri_ok wid_ok
+                            mime_dec H b32 b64 http_req_ok http_resp_ok (uni o p) vid rt hs content new_id) in
+    is_ok (run Fail) = false <-> (findings_of (run Warn) <> [] \/ is_ok (run Warn) = false).
+Proof. intros. apply build_fail_errs_iff_warn_finds_or_errs; [exact gen_table_ok|assumption]. Qed.
+Print Assumptions C08_builder_fail_errs_exactly_when_warn_finds_or_errs.
